@@ -8,6 +8,18 @@ namespace vfspec {
 using namespace fixedmath;
 extern "C" {
 // series kernel asin<20> on its call domain [0, 0.6] (prec 20)
+// thorough tier: the series kernel asin<20> against the exact polynomial of the source comment
+//   x + x^3/6 + 3x^5/40 + 5x^7/112 + 35x^9/1152 + 63x^11/2816
+// vf_asin_poly_scaled(x) = 887040 * 2^60 * 2^20 * P(x / 2^20) in 128-bit integers (887040 = lcm of the denominators); every `>> 40`
+// truncates by less than one unit of 2^-60 of a 2^-20 ulp.  post_asin_poly: the kernel is within 2.5 units of 2^-20 (0.16 ulp of the
+// 48.16 format; measured range [-1.81, 0]) of that polynomial on its call domain.  (The masks are no-ops for x < 2^20.)
+constexpr wide vf_asin_poly_scaled(long x)
+  { unsigned long const X = static_cast<unsigned long>(x) & 0xFFFFFul, x2 = X * X;
+    uwide const M = (uwide(1) << 80) - 1, a1 = uwide(X) << 60, a3 = ((a1 * x2) >> 40) & M, a5 = ((a3 * x2) >> 40) & M, a7 = ((a5 * x2) >> 40) & M,
+      a9 = ((a7 * x2) >> 40) & M, a11 = ((a9 * x2) >> 40) & M;
+    return wide(uwide(887040) * a1 + uwide(147840) * a3 + uwide(66528) * a5 + uwide(39600) * a7 + uwide(26950) * a9 + uwide(19845) * a11); }
+constexpr bool post_asin_poly(long x, long r)
+  { wide d = (wide(887040) << 60) * wide(r) - vf_asin_poly_scaled(x); if( d < 0 ) d = -d; return 2 * d <= 5 * (wide(887040) << 60); }
 constexpr bool pre_asin_k(long x) { return x >= 0 && x <= 700000; }     // call sites need [0, 629152]
 constexpr bool post_asin_k(long x, long r) { return r >= x && r <= x + x / 8 && (x != 0 || r == 0); }
 // sqrt as asin uses it: argument in [0, 0.2]; either algorithm is within one ulp of the real root
